@@ -393,7 +393,7 @@ def forward_probe():
         (pages / "a.md").write_text("title: A\n\ntext\n")
         (pages / "sub" / "index.md").write_text("title: Sub\ncopy_subdir: c17-own-of-sub\n\ntext\n")
         (pages / "sub" / "b.md").write_bytes("title: Café\n\ntext\n".encode("latin-1"))
-        (pages / "sub" / "deep" / "index.md").write_text("title: Deep\n\ntext\n")
+        (pages / "sub" / "deep" / "index.md").write_text("title: Deep\ncopy_subdir: c17-own-of-deep\n\ntext\n")
         (pages / "sub" / "deep" / "c.md").write_text("title: C\n\ntext\n")
         orig_gpt, orig_node = pt.get_page_tree, pt.PageNode
         gsig, nsig = inspect.signature(orig_gpt), inspect.signature(orig_node.__init__)
